@@ -217,8 +217,36 @@ func ruleHoleDiscipline(p *Program, r *Report) {
 		r.Undecided("anchor", "rel.SeqArrowExpr.Eval not found", 0)
 		return
 	}
-	// closures included
+	// closures included, and helpers the branches were extracted into: static callees in package rel that are
+	// methods of SeqArrowExpr or take the per-item function as a parameter
 	fns := append([]*ssa.Function{fn}, Closures(fn)...)
+	seenFn := map[*ssa.Function]bool{fn: true}
+	for i := 0; i < len(fns); i++ {
+		ForEachInstr(fns[i], func(ins ssa.Instruction) {
+			c, ok := ins.(ssa.CallInstruction)
+			if !ok {
+				return
+			}
+			g := c.Common().StaticCallee()
+			if g == nil || seenFn[g] || g.Pkg != fn.Pkg || g.Blocks == nil {
+				return
+			}
+			helper := false
+			if rc := g.Signature.Recv(); rc != nil && TypeName(Deref(rc.Type())) == "rel.SeqArrowExpr" {
+				helper = true
+			}
+			for j := 0; j < g.Signature.Params().Len(); j++ {
+				if _, isFn := g.Signature.Params().At(j).Type().Underlying().(*types.Signature); isFn {
+					helper = true
+				}
+			}
+			if helper {
+				seenFn[g] = true
+				fns = append(fns, g)
+				fns = append(fns, Closures(g)...)
+			}
+		})
+	}
 	for _, f := range fns {
 		ForEachInstr(f, func(ins ssa.Instruction) {
 			// a range over x.s (String) or x.values (Array): element loads via IndexAddr on the field load
